@@ -1013,6 +1013,9 @@ def run(ctx):
                 'the F06 witness, every word of length <= 4 over {read 1, read BUF+1, peek 3, seek -1, mark:=tell, tell, seek mark, get mark}, '
                 'random histories of 1..60 (thorough 120) calls on 0..40000 octets with sizes and read lengths straddling io.DEFAULT_BUFFER_SIZE '
                 '(20% deliberately not permitted: model correspondence only); non-trivial = the cache is dropped during the history. '
+                '(a2) histories on the wrapper over a raw reader delivering in packets (cycles of 1..2*BUF+5 octets) and answering None '
+                'in random patterns vs a seekable twin with the same delivery schedule, generated adaptively so that they are permitted; '
+                'non-trivial = cache drop or None answer. '
                 '(b) BER (definite, indefinite, chunked), CER and DER encodings of wide / deep / mixed SEQUENCE, SEQUENCE OF, SET OF, ANY '
                 'envelopes and single OCTET STRINGs with total sizes k*BUF-3..k*BUF+2 (k=1,2,3) and others, their concatenations, truncations '
                 'and corruptions, decoded from bytes, BytesIO, OctetString, Any, a file, gzip and zip readers, a non-seekable reader '
@@ -1042,6 +1045,20 @@ def replay(data):
         for variant in ('Cur', 'Fix'):
             print('model %s:' % variant, core.coq_show(IMPORTS, 'outputs (run (wstep %s (N.to_nat default_buffer_size)) (w_init %s) %s)'
                                                       % (variant, coqio.cbytes(b), coq_ops(ops)))[:1500])
+        return 1 if bad and case.get('permitted') else 0
+    if case.get('kind') == 'packet-history':
+        b = _unpack(case['data_hex_gz'])
+        ops = [tuple(o) for o in case['ops']]
+        cyc, bounds, e, k = case['packet_cycle'], [], 0, 0
+        while e < len(b):
+            e = min(len(b), e + cyc[k % len(cyc)]); bounds.append(e); k += 1
+        wo = run_wrapper(streaming.CachingStreamWrapper(RawPackets(b, bounds, case['none_pattern'])), ops)
+        so = run_bytesio(SeekPackets(b, bounds, case['none_pattern']), ops)
+        bad = 0
+        for i, o in enumerate(ops):
+            differs = wo[i] != so[i]
+            bad += differs
+            print('%3d %-22s wrapper=%-40s twin=%-40s %s' % (i, o, show_outs([wo[i]])[0], show_outs([so[i]])[0], '<-- differs' if differs else ''))
         return 1 if bad and case.get('permitted') else 0
     if case.get('kind') == 'decode':
         import random
